@@ -8,6 +8,8 @@ Lattice explorer over
     observations over the announced observation kinds, every permutation of each),
   * the real UKF with the real Azimuth/Elevation/Range/RangeRate measurement classes and sensors at known sites, the
     target placed on / next to / off the azimuth seam,
+  * the real UKF fed one physical measurement whose components are declared in every order (Measurement built by
+    Measurement.fromMeasurementLabels / by the sensor config path, noise covariance permuted with the labels),
   * the angular code of the real GeneticParticleFilter (calculateResidualsFromObservations, forecast, update's innovation).
 """
 from __future__ import annotations
@@ -64,11 +66,22 @@ RULE = (
     "with each other; the predicted measurement mean is also held inside the analytic unscented envelope of the centre "
     "sigma point's measurement. Real Azimuth/Elevation/Range(/RangeRate) stacks of 1..4 observations from sensors on one meridian "
     "with the target on / next to / off north, 6-state filter with alpha in {1e-3, 1, 1e-4} (thorough adds 0.05, 0.5, 1e-5), "
-    "all permutations (quick: the 4-stack for two seam placements). GPF: "
+    "all permutations (quick: the 4-stack for two seam placements). Component order of ONE measurement: every ordered "
+    "selection (60) of every subset of >= 2 of (azimuth, elevation, range, range rate) - all 24 orders of the radar-like "
+    "4-set, the 6 of each 3-set, both of the optical-like pair and of every other pair - built through "
+    "Measurement.fromMeasurementLabels with unequal variances and a full correlated R that the check permutes together "
+    "with the labels: labels / component classes / IsAngle flags / r_matrix / calculateMeasurement keys+values / "
+    "Observation.fromMeasurement states must be in the caller's order; then the real 6-state UKF (alpha in {1e-3, 1}, "
+    "thorough adds 1e-4, 0.5; target on the azimuth seam and due east, thorough 5 placements) updated with that "
+    "observation alone, and stacked before / after a second sensor's (az, el) observation (itself declared in either "
+    "order), against an independent reference that never reads a Measurement object (own h, R, z for the declared order) "
+    "and against the real filter fed the documented order (posterior and innovation equal up to the permutation); the "
+    "same through the config path OpticalConfig / RadarConfig / AdvRadarConfig -> sensorFactory -> sensor.measurement "
+    "(covariance in the documented order) against the reference and against the factory-built reversed order. GPF: "
     "the same stub stacks through calculateResidualsFromObservations / forecast / update on a fixed particle lattice "
     "(quick: 7 fixed orders of each 4-stack, thorough all 24). "
     "non-trivial = some angular component predicted within 1e-3 rad of its seam, or a turn count k != 0, or a "
-    "non-identity permutation (helpers: value within 1e-3 of a seam or k != 0; sigma-point clusters: negative centre "
+    "non-identity permutation / non-alphabetical component order (helpers: value within 1e-3 of a seam or k != 0; sigma-point clusters: negative centre "
     "weight; tiny-resultant sets: all); distinct by construction (lattice points)."
 )
 ASSUMPTIONS = [
@@ -83,6 +96,10 @@ ASSUMPTIONS = [
     "real-sensor cases trust getSlantRangeVector / lla2eci / sez2eci / getAzimuth.. (subjects of C04, C14) to evaluate "
     "the measurement function itself; only its angular bookkeeping in the filter is checked here",
     "linear dynamics stub (constant velocity); UKF == Kalman filter equivalence is C06's subject",
+    "component-order family: a Measurement's components, flags and r_matrix are in the order of the label list it was "
+    "asked for (Measurement.__init__ keeps the order of its type list; the noise covariance is documented as being in the "
+    "order of the measurement vector); shipped sensors report (azimuth, elevation[, range, range rate]) in that order "
+    "(sensor docstrings / Observation columns) and take SensorConfig.covariance in the same order",
     "GPF: only the deterministic part (residuals, scores, innovation) is compared; resampling draws are not",
 ]
 EXPECT_MIN_NONTRIVIAL = 2000
@@ -456,6 +473,11 @@ def items(tier, seed):
                 if tier == "quick" and len(REAL_STACKS[si]) == 4 and pname not in REAL_4STACK_PLACEMENTS_Q:
                     continue  # announced lattice: quick runs the 24 orders of the 4-stack for two seam placements
                 out.append(("real", tier, seed, ai, pi_, si))
+    for ai, _ in enumerate(_lab_alphas(tier)):
+        for pi_, _ in enumerate(_lab_placements(tier)):
+            for chunk in fw.chunked(range(len(LAB_SELECTIONS)), LAB_CHUNK):
+                out.append(("labels", tier, seed, ai, pi_, list(chunk)))
+            out.append(("labsensor", tier, seed, ai, pi_))
     for ph in _phases(tier)[:2]:
         for chunk in reversed(_chunks_by_cost(mss, 60 if tier == "quick" else 130, max_orders=8 if tier == "quick" else 24)):
             out.append(("gpf", tier, seed, chunk, ph))
@@ -507,6 +529,14 @@ def bounds(tier, seed):
         "real_azimuth_placements": [p[0] for p in _real_placements(tier)],
         "real_stacks": [[f"{site}:{m}" for site, m in st] for st in REAL_STACKS],
         "real_4stack_placements": list(REAL_4STACK_PLACEMENTS_Q) if tier == "quick" else "all",
+        "component_order_label_sets": [list(c) for c in LAB_SETS],
+        "component_order_selections": len(LAB_SELECTIONS),
+        "component_order_sigmas": LAB_SIG,
+        "component_order_correlations": {f"{a}|{b}": v for (a, b), v in _LAB_CORR.items()},
+        "component_order_alphas": _lab_alphas(tier),
+        "component_order_placements": [p[0] for p in _lab_placements(tier)],
+        "component_order_variants": ["alone", "before partner (az,el)/(el,az) of a second site", "after it"],
+        "component_order_sensor_configs": {k: list(v) for k, v in SENSOR_KINDS.items()},
         "gpf_particles": GPF_POP,
         "gpf_orders_of_4_stacks": [list(o) for o in GPF_ORDERS_4_Q] if tier == "quick" else "all 24",
     }
@@ -1214,6 +1244,19 @@ def _real_setup(seed, east):
     return t0, x0, x_pred, ch @ ch.T, 1e-10 * np.eye(6)
 
 
+class _LabelOrder(Exception):
+    """Measurement.fromMeasurementLabels did not keep the caller's component order (a finding, not a harness error)."""
+
+    def __init__(self, asked, got):
+        super().__init__(f"asked {list(asked)} got {list(got)}")
+        self.asked, self.got = list(asked), list(got)
+
+
+def _require_caller_order(meas, labels):
+    if list(meas.labels) != list(labels) or [type(m).LABEL for m in meas._measurements] != list(labels):  # noqa: SLF001
+        raise _LabelOrder(labels, meas.labels)
+
+
 def _real_obs(t0, x_pred, stack, seed, turns=None, shift=None):
     jd = float(datetimeToJulianDate(t0))
     obs, kinds = [], []
@@ -1225,8 +1268,10 @@ def _real_obs(t0, x_pred, stack, seed, turns=None, shift=None):
         rmat = np.diag([MEAS_SIG[lb] ** 2 for lb in labels])
         if shift is None:
             meas = Measurement.fromMeasurementLabels(labels, rmat)
+            _require_caller_order(meas, labels)
         else:
             base = Measurement.fromMeasurementLabels(labels, rmat)
+            _require_caller_order(base, labels)
             types = [_ShiftedAzimuth(shift) if lb == "azimuth_rad" else mt for lb, mt in zip(labels, base._measurements)]  # noqa: SLF001
             meas = Measurement(types, rmat)
         truth = x_pred + np.array([0.4, -0.3, 0.2, 1e-3, -2e-3, 1e-3]) * (1 + 0.1 * slot)
@@ -1267,6 +1312,16 @@ def _run_real_ukf(x0, p0, q, alpha, obs, warm=None):
 
 
 def _run_real_item(res, item):
+    try:
+        _run_real_item_body(res, item)
+    except _LabelOrder as exc:
+        # the stacked components (hence flags, predicted rows and measured values) are no longer in the order the
+        # noise covariance was given in: everything downstream is mis-assigned
+        res.violate("real/measurement_order", {"asked": exc.asked, "got": exc.got, "stack": [f"{s}:{m}" for s, m in REAL_STACKS[item[5]]]},
+                    nontrivial=True, signature="C16/real/measurement_order", observed=exc.got, expected=exc.asked, item=tuple(item))  # fmt: skip
+
+
+def _run_real_item_body(res, item):
     _, tier, seed, ai, pi_, si = item
     alpha = _real_alphas(tier)[ai]
     pname, east = _real_placements(tier)[pi_]
@@ -1328,6 +1383,278 @@ def _run_real_item(res, item):
         f_w = _run_real_ukf(x0, p0, q, alpha, obs_p, warm=obs)
         _same_posterior(res, "real/permutation_used_filter", "C16/real/permutation_used_filter", cpub, f_w, f_p, tol_perm, sig0, True, it)
         _innovation_range(res, "real/permutation_used_filter", cpub, f_w, [kinds[i] for i in cperm], True, it)
+
+
+# =================================================================================================== component order
+# One physical measurement may list its components in any order as long as the noise covariance is given in the same
+# order.  Measurement.fromMeasurementLabels (the factory every sensor uses) must keep the caller's order for the types,
+# labels, angular flags, predicted rows AND the covariance; the built-in Optical / Radar label lists happen to be
+# alphabetical, so only other orders can tell a re-sorted component list from a kept one.
+LAB_SIG = {"azimuth_rad": 2e-4, "elevation_rad": 5e-4, "range_km": 0.05, "range_rate_km_p_sec": 2e-3}  # unequal on purpose
+_LAB_CORR = {("azimuth_rad", "elevation_rad"): 0.3, ("azimuth_rad", "range_km"): -0.2, ("azimuth_rad", "range_rate_km_p_sec"): 0.15,
+             ("elevation_rad", "range_km"): 0.25, ("elevation_rad", "range_rate_km_p_sec"): -0.1,
+             ("range_km", "range_rate_km_p_sec"): 0.4}  # fmt: skip
+LAB_CLASS = {"azimuth_rad": Azimuth, "elevation_rad": Elevation, "range_km": Range, "range_rate_km_p_sec": RangeRate}
+LAB_KIND = {"azimuth_rad": A2, "elevation_rad": AN, "range_km": LIN, "range_rate_km_p_sec": LIN}
+LAB_FLAG = {lb: FLAG[k] for lb, k in LAB_KIND.items()}
+# every subset of >= 2 of the four components, in the documented (azimuth, elevation, range, range rate) order:
+# the radar-like 4-set, the (az, el, range) 3-set of the basic radar description, the optical-like (az, el) pair, ...
+LAB_SETS = [c for m in (4, 3, 2) for c in itertools.combinations(LABELS, m)]
+LAB_SELECTIONS = [(si, perm) for si, cset in enumerate(LAB_SETS) for perm in itertools.permutations(range(len(cset)))]
+LAB_CHUNK = 6
+LAB_PLACEMENTS_Q = ("north+", "east")
+LAB_PLACEMENTS_T = ("north+", "north-", "north-1e-4", "east", "south")
+LAB_PARTNER_SCALE = 1.5  # the second sensor's noise: same table, 1.5 times the sigmas
+SENSOR_KINDS = {"optical": ("azimuth_rad", "elevation_rad"), "radar": tuple(LABELS), "adv_radar": tuple(LABELS)}
+
+
+def _lab_alphas(tier):
+    return [1e-3, 1.0] if tier == "quick" else [1e-3, 1.0, 1e-4, 0.5]
+
+
+def _lab_placements(tier):
+    names = LAB_PLACEMENTS_T if tier == "thorough" else LAB_PLACEMENTS_Q
+    return [p for p in REAL_PLACEMENTS_T if p[0] in names]
+
+
+def _lab_cov(labels, scale=1.0):
+    """Noise covariance of the components ``labels`` IN THAT ORDER: R[i, j] = cov(labels[i], labels[j]) from the table."""
+    m = len(labels)
+    r = np.zeros((m, m))
+    for i, a in enumerate(labels):
+        for j, b in enumerate(labels):
+            rho = 1.0 if a == b else _LAB_CORR.get((a, b), _LAB_CORR.get((b, a)))
+            r[i, j] = rho * LAB_SIG[a] * LAB_SIG[b] * scale * scale
+    return r
+
+
+def _site_eci(site, t0):
+    lat, lon, alt = SITES[site]
+    return lla2eci(np.array([math.radians(lat), math.radians(lon), alt]), t0)
+
+
+def _lab_direct(label, sen, state, when):
+    """One component evaluated by its own class, without any Measurement object in between."""
+    return float(LAB_CLASS[label]().calculate(sen, state, when))
+
+
+def _lab_values(labels, sen, truth, when):
+    """Reported values by label name: noise-free value at ``truth`` plus half a sigma (azimuth kept in [0, 2pi))."""
+    out = {}
+    for lb in labels:
+        v = _lab_direct(lb, sen, truth, when) + 0.5 * LAB_SIG[lb]
+        out[lb] = _rep(A2, v) if lb == "azimuth_rad" else v
+    return out
+
+
+class _LabWorld:
+    """Filter set-up + the two sensors of one (alpha, placement): main sensor at S1, partner (optical-like) at S2."""
+
+    def __init__(self, tier, seed, ai, pi_):
+        self.alpha = _lab_alphas(tier)[ai]
+        self.pname, east = _lab_placements(tier)[pi_]
+        self.t0, self.x0, self.x_pred, self.p0, self.q = _real_setup(seed, east)
+        self.jd = float(datetimeToJulianDate(self.t0))
+        self.when = julianDateToDatetime(JulianDate(self.jd))  # the epoch as the filter converts it
+        self.sen = {"S1": _site_eci("S1", self.t0), "S2": _site_eci("S2", self.t0)}
+        self.truth = {"S1": self.x_pred + np.array([0.4, -0.3, 0.2, 1e-3, -2e-3, 1e-3]),
+                      "S2": self.x_pred + np.array([0.44, -0.33, 0.22, 1.1e-3, -2.2e-3, 1.1e-3])}  # fmt: skip
+        self.fmat = _LinDyn(6).fmat(DT)
+
+    def observation(self, site, labels, scale=1.0, meas=None):
+        """Real Observation of ``site`` with the components declared in the order ``labels`` (values passed by name)."""
+        if meas is None:
+            meas = Measurement.fromMeasurementLabels(list(labels), _lab_cov(labels, scale))
+        vals = _lab_values(labels, self.sen[site], self.truth[site], self.when)
+        return Observation(self.jd, 10001, 20001 + int(site[1]), "Radar", self.sen[site], meas, **vals)
+
+    def reference(self, specs):
+        """Independent UKF step for the stack ``specs`` = [(site, labels, scale), ...]: own h (component classes called
+        one by one), own block R (from the table), own z (by name); nothing is read from a Measurement object."""
+        rows = [(site, lb) for site, labels, _ in specs for lb in labels]
+        kinds = [LAB_KIND[lb] for _, lb in rows]
+        m = len(rows)
+        rmat, pos, z = np.zeros((m, m)), 0, []
+        for site, labels, scale in specs:
+            d = len(labels)
+            rmat[pos : pos + d, pos : pos + d] = _lab_cov(labels, scale)
+            pos += d
+            vals = _lab_values(labels, self.sen[site], self.truth[site], self.when)
+            z.extend(vals[lb] for lb in labels)
+
+        def hfun(state):
+            return np.array([_lab_direct(lb, self.sen[site], state, self.when) for site, lb in rows])
+
+        exp = ref.ref_ukf_step(self.x0, self.p0, self.fmat, self.q, self.alpha, 2.0, None, hfun, kinds, rmat, np.array(z))
+        return exp, kinds, rows
+
+    def run(self, obs):
+        return _run_real_ukf(self.x0, self.p0, self.q, self.alpha, obs)
+
+
+def _lab_structure(res, world, site, labels, meas, pub, it, sub="labels/order"):
+    """The Measurement (and an Observation made from it) lists everything in the caller's order."""
+    labels = list(labels)
+    nontriv = labels != sorted(labels)  # an order a sorted() / set() of the labels would change
+    want_r = _lab_cov(labels)
+    types = [type(m) for m in meas._measurements]  # noqa: SLF001
+    res.case(f"{sub}/labels", pub, list(meas.labels) == labels, nontrivial=nontriv, signature=f"C16/{sub}/labels",
+             observed=list(meas.labels), expected=labels, item=it)  # fmt: skip
+    res.case(f"{sub}/types", pub, types == [LAB_CLASS[lb] for lb in labels], nontrivial=nontriv, signature=f"C16/{sub}/types",
+             observed=[t.__name__ for t in types], expected=[LAB_CLASS[lb].__name__ for lb in labels], item=it)  # fmt: skip
+    res.case(f"{sub}/is_angular", pub, list(meas.angular_values) == [LAB_FLAG[lb] for lb in labels], nontrivial=nontriv,
+             signature=f"C16/{sub}/is_angular", observed=[int(a) for a in meas.angular_values],
+             expected=[int(LAB_FLAG[lb]) for lb in labels], item=it)  # fmt: skip
+    res.case(f"{sub}/r_matrix", pub, meas.dim == len(labels) and bool(np.array_equal(np.asarray(meas.r_matrix), want_r)),
+             nontrivial=nontriv, signature=f"C16/{sub}/r_matrix", observed=np.asarray(meas.r_matrix), expected=want_r, item=it)  # fmt: skip
+    sen = world.sen[site]
+    direct = [_lab_direct(lb, sen, world.truth[site], world.when) for lb in labels]
+    calc = meas.calculateMeasurement(sen, world.truth[site], world.when, noisy=False)
+    ok_calc = list(calc.keys()) == labels and [float(v) for v in calc.values()] == direct
+    res.case(f"{sub}/calculate", pub, ok_calc, nontrivial=nontriv, signature=f"C16/{sub}/calculate",
+             observed={k: float(v) for k, v in calc.items()}, expected=dict(zip(labels, direct)), item=it)  # fmt: skip
+    ob = Observation.fromMeasurement(world.jd, 10001, world.truth[site], 20001, sen, "Radar", meas, noisy=False)
+    ok_ob = bool(np.array_equal(ob.measurement_states, np.array(direct))) and list(ob.angular_values) == [LAB_FLAG[lb] for lb in labels] \
+        and bool(np.array_equal(np.asarray(ob.r_matrix), want_r)) and ob.dim == len(labels)  # fmt: skip
+    res.case(f"{sub}/observation", pub, ok_ob, nontrivial=nontriv, signature=f"C16/{sub}/observation",
+             observed=ob.measurement_states, expected=direct, item=it)  # fmt: skip
+
+
+def _lab_perm(rows_variant, rows_base):
+    index = {row: j for j, row in enumerate(rows_base)}
+    return np.array([index[row] for row in rows_variant], dtype=int)
+
+
+def _lab_near(world, exp, kinds):
+    az = [float(v) for v, k in zip(exp["ys"][0], kinds) if k == A2]
+    return any(min(a, TWOPI - a) <= 1.001e-3 for a in az)
+
+
+def _lab_partner(sel_index):
+    """The second sensor lists its (az, el) pair in either order (alternating with the selection index)."""
+    return ("azimuth_rad", "elevation_rad") if sel_index % 2 == 0 else ("elevation_rad", "azimuth_rad")
+
+
+def _run_labels_item(res, item):
+    _, tier, seed, ai, pi_, sel_idxs = item
+    try:
+        _labels_selections(res, tier, seed, ai, pi_, list(sel_idxs))
+    except Exception as exc:  # noqa: BLE001  an exception on a lattice point is a finding (see _run_ukf_item)
+        res.violate("labels/exception", {"alpha_index": ai, "placement_index": pi_, "selections": list(sel_idxs)}, nontrivial=True,
+                    signature=f"C16/labels/exception/{type(exc).__name__}", observed=repr(exc)[:300], item=tuple(item))  # fmt: skip
+
+
+def _labels_selections(res, tier, seed, ai, pi_, sel_idxs):
+    world = _LabWorld(tier, seed, ai, pi_)
+    canon_partner = ("azimuth_rad", "elevation_rad")
+    base = {}  # per label set: canonical-order filters (alone / stacked with the partner) and their tolerances
+
+    def base_of(si):
+        if si not in base:
+            cset = LAB_SETS[si]
+            out = {}
+            for vname, specs in (("alone", [("S1", cset, 1.0)]), ("stack", [("S1", cset, 1.0), ("S2", canon_partner, LAB_PARTNER_SCALE)])):
+                exp, kinds, rows = world.reference(specs)
+                filt = world.run([world.observation(site, labels, scale) for site, labels, scale in specs])
+                out[vname] = (filt, exp, kinds, rows, _sigma_scale(exp["pred_p"]), _tol_perm(exp))
+            base[si] = out
+        return base[si]
+
+    for sel in sel_idxs:
+        si, perm = LAB_SELECTIONS[sel]
+        cset = LAB_SETS[si]
+        labels = tuple(cset[j] for j in perm)
+        identity = labels == cset
+        it = ("labels", tier, seed, ai, pi_, [sel])
+        pub0 = {"alpha": world.alpha, "placement": world.pname, "labels": list(labels)}
+        meas = Measurement.fromMeasurementLabels(list(labels), _lab_cov(labels))
+        _lab_structure(res, world, "S1", labels, meas, pub0, it)
+        partner = _lab_partner(sel)
+        variants = [
+            ("alone", [("S1", labels, 1.0)], "alone"),
+            ("first", [("S1", labels, 1.0), ("S2", partner, LAB_PARTNER_SCALE)], "stack"),
+            ("last", [("S2", partner, LAB_PARTNER_SCALE), ("S1", labels, 1.0)], "stack"),
+        ]
+        for vname, specs, bname in variants:
+            pub = {**pub0, "variant": vname, "partner": list(partner) if vname != "alone" else None}
+            obs = [world.observation(site, lbs, scale) for site, lbs, scale in specs]
+            filt = world.run(obs)
+            exp, kinds, rows = world.reference(specs)
+            sig0 = _sigma_scale(exp["pred_p"])
+            near = _lab_near(world, exp, kinds)
+            moved = not identity or vname == "last" or (vname == "first" and partner != canon_partner)
+            # (a) against the independent reference for exactly this declared order
+            _compare_with_reference(res, "labels/reference", {**pub, "_kinds": kinds}, filt, exp, _tol(6, world.alpha, None, exp),
+                                    sig0, moved or near, it)  # fmt: skip
+            _innovation_range(res, "labels", pub, filt, kinds, moved or near, it)
+            # (b) against the real filter fed the documented order: the posterior may not depend on the declared order
+            f_b, _, _, rows_b, sig_b, tol_perm = base_of(si)[bname]
+            if moved:
+                sub = "labels/component_order" if vname == "alone" else "labels/stack_order"
+                _same_posterior(res, sub, f"C16/{sub}", pub, filt, f_b, tol_perm, sig_b, True, it, perm=_lab_perm(rows, rows_b))
+            res.observe(filt.est_x, filt.est_p, filt.innovation)
+
+
+def _run_labsensor_item(res, item):
+    _, tier, seed, ai, pi_ = item
+    try:
+        _labels_sensors(res, tier, seed, ai, pi_)
+    except Exception as exc:  # noqa: BLE001
+        res.violate("labels/sensor/exception", {"alpha_index": ai, "placement_index": pi_}, nontrivial=True,
+                    signature=f"C16/labels/sensor/exception/{type(exc).__name__}", observed=repr(exc)[:300], item=tuple(item))  # fmt: skip
+
+
+def _sensor_from_config(kind, labels):
+    """A shipped sensor built the way a scenario builds it: pydantic sensor config -> sensorFactory."""
+    from resonaate.scenario.config.sensor_config import AdvRadarConfig, OpticalConfig, RadarConfig  # noqa: PLC0415
+    from resonaate.sensors import sensorFactory  # noqa: PLC0415
+
+    common = {"azimuth_range": [0.0, 359.99], "elevation_range": [-89.9, 89.9], "covariance": _lab_cov(labels).tolist(),
+              "slew_rate": 3.0, "field_of_view": {"fov_shape": "conic", "cone_angle": 10.0}}  # fmt: skip
+    if kind == "optical":
+        cfg = OpticalConfig(aperture_diameter=1.0, efficiency=0.98, **common)
+    else:
+        cls = RadarConfig if kind == "radar" else AdvRadarConfig
+        cfg = cls(aperture_diameter=27.0, efficiency=0.9, tx_power=2.5e6, tx_frequency=1.5e9,
+                  min_detectable_power=1.4314085925969573e-14, **common)  # fmt: skip
+    return sensorFactory(cfg)
+
+
+def _labels_sensors(res, tier, seed, ai, pi_):
+    """The config path: covariance given in the documented component order of the sensor type -> sensorFactory ->
+    sensor.measurement; an update with that Measurement equals the update with the factory-built one and the reference."""
+    world = _LabWorld(tier, seed, ai, pi_)
+    it = ("labsensor", tier, seed, ai, pi_)
+    for kind, labels in SENSOR_KINDS.items():
+        pub0 = {"alpha": world.alpha, "placement": world.pname, "sensor": kind, "labels": list(labels)}
+        sensor = _sensor_from_config(kind, labels)
+        meas = sensor.measurement
+        _lab_structure(res, world, "S1", labels, meas, pub0, it, sub="labels/sensor/order")
+        res.case("labels/sensor/order/sensor_r_matrix", pub0, bool(np.array_equal(np.asarray(sensor.r_matrix), _lab_cov(labels))),
+                 nontrivial=True, signature="C16/labels/sensor/order/sensor_r_matrix", observed=np.asarray(sensor.r_matrix),
+                 expected=_lab_cov(labels), item=it)  # fmt: skip
+        partner = ("elevation_rad", "azimuth_rad")
+        for vname, order in (("alone", None), ("first", 0), ("last", 1)):
+            pub = {**pub0, "variant": vname}
+            main_ob = world.observation("S1", labels, meas=meas)
+            specs = [("S1", labels, 1.0)]
+            obs = [main_ob]
+            if order is not None:
+                specs.insert(1 - order, ("S2", partner, LAB_PARTNER_SCALE))
+                obs.insert(1 - order, world.observation("S2", partner, LAB_PARTNER_SCALE))
+            filt = world.run(obs)
+            exp, kinds, rows = world.reference(specs)
+            sig0 = _sigma_scale(exp["pred_p"])
+            _compare_with_reference(res, "labels/sensor/reference", {**pub, "_kinds": kinds}, filt, exp,
+                                    _tol(6, world.alpha, None, exp), sig0, True, it)  # fmt: skip
+            # same stack with the main Measurement built directly by the factory, components reversed
+            rev = tuple(reversed(labels))
+            specs_r = [(s, rev if s == "S1" else lbs, sc) for s, lbs, sc in specs]
+            f_r = world.run([world.observation(s, lbs, sc) for s, lbs, sc in specs_r])
+            rows_r = [(s, lb) for s, lbs, _ in specs_r for lb in lbs]
+            _same_posterior(res, "labels/sensor/component_order", "C16/labels/sensor/component_order", pub, f_r, filt,
+                            _tol_perm(exp), sig0, True, it, perm=_lab_perm(rows_r, rows))  # fmt: skip
+            res.observe(filt.est_x, filt.est_p)
 
 
 # =================================================================================================== GPF
@@ -1541,6 +1868,10 @@ def run_item(item):
         _run_real_item(res, item)
     elif kind == "gpf":
         _run_gpf_item(res, item)
+    elif kind == "labels":
+        _run_labels_item(res, item)
+    elif kind == "labsensor":
+        _run_labsensor_item(res, item)
     else:
         raise ValueError(kind)
     return res
